@@ -56,7 +56,7 @@ type lexReg struct {
 	ctor   string
 	kind   string // constant token kind, if any
 	pat    string // regex pattern
-	inLoop *absLoop
+	seq    *lexSeq // registered once per element of this sequence (nil: a single registration)
 }
 
 func ruleLex(c *Ctx) {
@@ -77,39 +77,13 @@ func ruleLex(c *Ctx) {
 	} else {
 		c.R.Anchor("parser/oper.operators")
 	}
-	// collect registrations in source order
-	var regs []lexReg
-	loops := c.absLoops(nl.Body, c.localDefs(nl.Body))
-	for _, call := range c.calls(nl.Body) {
-		nm := c.calleeName(call)
-		var r lexReg
-		switch nm {
-		case "parser/lexer.str", "parser/lexer.keyword", "parser/lexer.primOper":
-			r = lexReg{call: call, ctor: strings.TrimPrefix(nm, "parser/lexer.")}
-			if s, ok := c.constStr(call.Args[0]); ok {
-				r.kind = s
-			}
-		case "parser/lexer.regex":
-			r = lexReg{call: call, ctor: "regex"}
-			if s, ok := c.constStr(call.Args[0]); ok {
-				r.kind = s
-			}
-			if s, ok := c.constStr(call.Args[1]); ok {
-				r.pat = s
-			}
-		case "parser/lexer.lexicon.addOper":
-			r = lexReg{call: call, ctor: "addOper"}
-		default:
-			continue
-		}
-		for i := range loops {
-			if l := &loops[i]; l.body.Pos() <= call.Pos() && call.End() <= l.body.End() {
-				r.inLoop = l
-			}
-		}
-		regs = append(regs, r)
-	}
+	// the registrations in registration order, by abstract evaluation of the body (rules_lexeval.go)
+	ev := c.lexRegistrations(nl)
+	regs := ev.regs
 	fn := "parser/lexer.newLexicon"
+
+	// LEX-0: nothing that could register a rule was skipped
+	c.R.Check(len(ev.bad) == 0, fn, "LEX-0 every registration is evaluated", nl.Pos(), fmt.Sprintf("%d registrations in order", len(regs)), "the registration order cannot be established: "+strings.Join(ev.bad, "; "))
 
 	// LEX-1
 	for _, r := range regs {
@@ -121,6 +95,7 @@ func ruleLex(c *Ctx) {
 			c.R.Check(idReg.MatchString(r.kind), fn, "LEX-1 keyword("+r.kind+") is identifier-like", r.call.Pos(), "whole-word rule on a word", "whole-word rule on non-word text never needs the boundary test (review)")
 		}
 	}
+	// the routing of user operators: lexicon.addOper, or whichever function / in-place test the evaluation found doing it
 	if ao := c.FuncDecl("parser/lexer", "lexicon.addOper"); ao != nil {
 		okRoute := false
 		inspectNoLit(ao.Body, func(x ast.Node) bool {
@@ -139,7 +114,14 @@ func ruleLex(c *Ctx) {
 		})
 		c.R.Check(okRoute, "parser/lexer.lexicon.addOper", "LEX-1 identifier-like operators get the whole-word rule", ao.Pos(), "IsIdentOp ? keyword : str", "user operators are not routed on IsIdentOp to keyword()/str()")
 	} else {
-		c.R.Anchor("lexicon.addOper")
+		// the evaluator only classifies a registration as a user-operator registration when it is routed (isRouter / routeIf)
+		nUser := 0
+		for _, r := range regs {
+			if r.ctor == "addOper" {
+				nUser++
+			}
+		}
+		c.R.Check(nUser > 0, "parser/lexer.lexicon.addOper", "LEX-1 identifier-like operators get the whole-word rule", nl.Pos(), "IsIdentOp ? keyword : str (routing function found by evaluation)", "no registration routes user operators on IsIdentOp to keyword()/str()")
 	}
 	if io := c.FuncDecl("parser/oper", "IsIdentOp"); io != nil {
 		okID := false
@@ -209,33 +191,25 @@ func ruleLex(c *Ctx) {
 
 	// LEX-2 / LEX-3
 	nSorted := 0
-	for _, l := range loops {
-		ce, ok := unparen(l.seq).(*ast.CallExpr)
-		sorted := ok && c.calleeName(ce) == "parser/oper.Sort"
-		adds := len(c.callsTo(l.body, "parser/lexer.lexicon.addOper", "parser/lexer.primOper", "parser/lexer.str", "parser/lexer.keyword"))
-		if adds == 0 {
+	seen := map[ast.Stmt]bool{}
+	for _, r := range regs {
+		if r.seq == nil || !r.seq.overOps || r.seq.stmt == nil || seen[r.seq.stmt] {
 			continue
 		}
-		isOps := false
-		if ok && len(ce.Args) == 1 {
-			if t := c.typeOf(ce.Args[0]); t != nil && strings.Contains(typeStr(t), "oper.Operator") {
-				isOps = true
-			}
-		} else if t := c.typeOf(l.seq); t != nil && strings.Contains(typeStr(t), "oper.Operator") {
-			isOps = true
-		}
-		if !isOps {
-			continue
-		}
-		if sorted {
+		seen[r.seq.stmt] = true
+		if r.seq.sorted {
 			nSorted++
 		}
-		c.R.Check(sorted, fn, "LEX-2 operators of "+src(l.seq)+" sorted longest-first before registration", l.stmt.Pos(), "ranges over oper.Sort(..)", "operator rules are registered in caller order: a shorter operator registered first shadows a longer one (first match wins)")
+		why := "operator rules are registered in caller order: a shorter operator registered first shadows a longer one (first match wins)"
+		if r.seq.unknown != "" {
+			why += " (" + r.seq.unknown + ")"
+		}
+		c.R.Check(r.seq.sorted, fn, "LEX-2 operators of "+src(r.seq.src)+" sorted longest-first before registration", r.seq.stmt.Pos(), "ranges over oper.Sort(..)", why)
 	}
 	c.R.Check(nSorted >= 2, fn, "LEX-2 both operator lists", nl.Pos(), "built-in and user operator loops both sorted", "expected two sorted operator loops")
 	// built-in loop uses primOper
 	for _, r := range regs {
-		if r.inLoop != nil && strings.Contains(src(r.inLoop.seq), "builtInOpers") {
+		if r.seq != nil && r.seq.src != nil && strings.Contains(src(r.seq.src), "builtInOpers") {
 			c.R.Check(r.ctor == "primOper", fn, "LEX-3 built-in . ? use primOper", r.call.Pos(), "primOper refuses when another operator character follows", "built-in operators are registered with "+r.ctor+": `.`/`?` would be split out of longer user operators")
 		}
 	}
